@@ -58,7 +58,7 @@ pub fn df_sel(which: u64) -> fn(&[u8]) -> Dfr {
 enum CallOut {
     Frame(Vec<u8>),
     None_,
-    Err(i128),
+    Err(i128, String),
     Count(std::io::Result<usize>),
     Panic,
 }
@@ -74,6 +74,7 @@ fn arf_sized<const N: usize>(c: &mut Cur, out: &mut Vec<i128>) {
     let cancel: Vec<u8> = c.take_list();
     let (stream_b, script_b, pre_b) = (stream.clone(), script.clone(), pre.clone());
     let mut ci = 0usize;
+    let mut amsgs: Vec<Option<String>> = Vec::new();
     let mut buf: AsyncFixedBuf<N> = AsyncFixedBuf::new();
     let _ = std::panic::catch_unwind(std::panic::AssertUnwindSafe(|| {
         let _ = buf.write_bytes(&pre);
@@ -104,7 +105,7 @@ fn arf_sized<const N: usize>(c: &mut Cur, out: &mut Vec<i128>) {
                         match fut.as_mut().poll(&mut cx) {
                             Poll::Ready(Ok(Some(f))) => return Some(CallOut::Frame(f.to_vec())),
                             Poll::Ready(Ok(None)) => return Some(CallOut::None_),
-                            Poll::Ready(Err(e)) => return Some(CallOut::Err(code_of(e.kind()))),
+                            Poll::Ready(Err(e)) => return Some(CallOut::Err(code_of(e.kind()), e.to_string())),
                             Poll::Pending => {
                                 let drop_it = cancel.get(ci).copied().unwrap_or(0) != 0;
                                 ci += 1;
@@ -151,6 +152,7 @@ fn arf_sized<const N: usize>(c: &mut Cur, out: &mut Vec<i128>) {
         let _ = &mut at_pending;
         let _ = &mut bad_pending;
         out.push(MOP);
+        let before_msgs = amsgs.len();
         match &res {
             CallOut::Frame(f) => {
                 out.push(0);
@@ -161,12 +163,21 @@ fn arf_sized<const N: usize>(c: &mut Cur, out: &mut Vec<i128>) {
                 out.push(0);
                 out.push(0);
             }
-            CallOut::Err(k) => {
+            CallOut::Err(k, m) => {
                 out.push(1);
                 out.push(*k);
+                amsgs.push(Some(m.clone()));
             }
-            CallOut::Count(r) => enc_io_usize(out, r),
+            CallOut::Count(r) => {
+                if let Err(e) = r {
+                    amsgs.push(Some(e.to_string()));
+                }
+                enc_io_usize(out, r)
+            }
             CallOut::Panic => out.push(PANIC),
+        }
+        if amsgs.len() == before_msgs {
+            amsgs.push(None);
         }
         post(&mut buf, out);
         out.push(-6);
@@ -181,7 +192,12 @@ fn arf_sized<const N: usize>(c: &mut Cur, out: &mut Vec<i128>) {
         rd.pendings = 0;
     }
     out.push(-8);
-    blocking_sized::<N>(which, &pre_b, preconsume, stream_b, script_b, ncalls, mode, out);
+    let bmsgs = blocking_sized::<N>(which, &pre_b, preconsume, stream_b, script_b, ncalls, mode, out);
+    // error TEXTS are not in the model (only kinds are): compare them here, async call by async call with the blocking method
+    let diff: Vec<i128> = (0..amsgs.len().min(bmsgs.len())).filter(|&i| amsgs[i].is_some() && bmsgs[i].is_some() && amsgs[i] != bmsgs[i]).map(|i| i as i128).collect();
+    out.push(-11);
+    out.push(diff.len() as i128);
+    out.extend(diff);
 }
 /// blocking scripted reader (same as harness/sync)
 struct BScriptReader {
@@ -214,7 +230,8 @@ impl std::io::Read for BScriptReader {
     }
 }
 fn blocking_sized<const N: usize>(which: u64, pre: &[u8], preconsume: usize, stream: Vec<u8>,
-                                  script: std::collections::VecDeque<(u64, u64, u64)>, ncalls: u64, mode: u64, out: &mut Vec<i128>) {
+                                  script: std::collections::VecDeque<(u64, u64, u64)>, ncalls: u64, mode: u64, out: &mut Vec<i128>) -> Vec<Option<String>> {
+    let mut bmsgs: Vec<Option<String>> = Vec::new();
     let mut abuf: AsyncFixedBuf<N> = AsyncFixedBuf::new();
     let _ = std::panic::catch_unwind(std::panic::AssertUnwindSafe(|| {
         let _ = abuf.write_bytes(pre);
@@ -245,19 +262,32 @@ fn blocking_sized<const N: usize>(which: u64, pre: &[u8], preconsume: usize, str
                         Err(e) => {
                             tmp.push(1);
                             tmp.push(code_of(e.kind()));
+                            return (tmp, Some(e.to_string()));
                         }
                     }
-                    tmp
+                    (tmp, None)
                 }));
                 match r {
-                    Ok(t) => out.extend(t),
-                    Err(_) => out.push(PANIC),
+                    Ok((t, m)) => {
+                        out.extend(t);
+                        bmsgs.push(m);
+                    }
+                    Err(_) => {
+                        out.push(PANIC);
+                        bmsgs.push(None);
+                    }
                 }
             } else {
                 let r = std::panic::catch_unwind(std::panic::AssertUnwindSafe(|| fb.copy_once_from(&mut rd)));
                 match r {
-                    Ok(q) => enc_io_usize(out, &q),
-                    Err(_) => out.push(PANIC),
+                    Ok(q) => {
+                        bmsgs.push(q.as_ref().err().map(|e| e.to_string()));
+                        enc_io_usize(out, &q)
+                    }
+                    Err(_) => {
+                        out.push(PANIC);
+                        bmsgs.push(None);
+                    }
                 }
             }
         }
@@ -267,7 +297,9 @@ fn blocking_sized<const N: usize>(which: u64, pre: &[u8], preconsume: usize, str
         out.push(rd.log.len() as i128);
         out.extend(rd.log.iter().map(|x| *x as i128));
     }
+    bmsgs
 }
+
 pub fn run_arf(c: &mut Cur, out: &mut Vec<i128>) {
     let size = c.next();
     with_size!(size, arf_sized, c, out)
